@@ -377,6 +377,7 @@ RULES = [
     ("C15-R7", "text literals are delimited in the expression text (cache key)", r7),
     ("X-LEXCLASS", "lexer operator / arithmetic character classes and context flags [shared]", lambda ctx: __import__("extra").lexer_classes(ctx)),
     ("X-VARIANT", "Variant constructors, text renderings and coercion order [shared]", lambda ctx: __import__("extra").variant_constructors(ctx)),
+    ("X-LITVALUE", "a literal evaluates to the text written in the query (patterns, size literals, arguments) [shared]", lambda ctx: __import__("extra2").literal_is_its_text(ctx)),
 ]
 
 EXPLANATION = (
